@@ -84,13 +84,37 @@ Theorem C17_mac_padding : forall data, (1 <= length data)%nat -> wf_bytes data =
 Proof. exact py_mac_pad_exact. Qed.
 Print Assumptions C17_mac_padding.
 
-(* net_if_addrs() over ANY interface list (hardware addresses of any sll_halen up to 255, IP records, nodes
-   without address or of unknown family, any flags): one row per node with an address of a known family, the
-   hardware address shown with all its bytes, netmask, and broadcast or peer address by the flags *)
+(* net_if_addrs() over ANY interface list with UTF-8 names (hardware addresses of any sll_halen up to 255, IP records, nodes
+   without address or of unknown family, any flags): one row per node with an address of a known family, the hardware
+   address shown with all its bytes, netmask, and broadcast or peer address by the flags *)
 Theorem C17_net_if_addrs_rows : forall junk l,
-  length junk = NI_MAXHOST -> forallb wf_ifa l = true -> c_net_if_addrs junk l = Val (spec_if_rows l).
+  length junk = NI_MAXHOST -> forallb wf_ifa l = true -> forallb name_utf8 l = true ->
+  c_net_if_addrs junk l = Val (spec_if_rows l).
 Proof. exact c_net_if_addrs_exact. Qed.
 Print Assumptions C17_net_if_addrs_rows.
+
+(* finding (names are bytes; the kernel forbids only '/', ':', white space): an interface called d\xff\xfe makes
+   net_if_addrs() raise for the whole list and net_if_stats() fail on the name it read itself from /proc/net/dev;
+   with the proposed repair the same name goes through *)
+Theorem C17_ifname_refuted :
+  forallb wf_ifa [ifa_badname] = true /\
+  c_net_if_addrs (repeat 255 NI_MAXHOST) [ifa_badname] = Exc UnicodeError /\
+  net_if_stats_names false [map fs_esc (ifa_name ifa_badname)] = Exc UnicodeError /\
+  net_if_stats_names true [map fs_esc (ifa_name ifa_badname)] = Val [ifa_name ifa_badname].
+Proof. exact ifname_refuted. Qed.
+Print Assumptions C17_ifname_refuted.
+
+(* proposed repair (names out through the filesystem encoding, names in through PyUnicode_FSConverter): every interface
+   list whatever bytes the names are made of; every name read from /proc/net/dev reaches the ioctl byte for byte *)
+Theorem C17_net_if_addrs_rows_repaired : forall junk l,
+  length junk = NI_MAXHOST -> forallb wf_ifa l = true -> c_net_if_addrs_fsnames junk l = Val (spec_if_rows l).
+Proof. exact c_net_if_addrs_fsnames_exact. Qed.
+Print Assumptions C17_net_if_addrs_rows_repaired.
+
+Theorem C17_nic_name_roundtrip_repaired : forall b,
+  wf_bytes b = true -> contains 0 b = false -> nic_name_in true (PStr (map fs_esc b)) = Val b.
+Proof. exact nic_name_fs_roundtrip. Qed.
+Print Assumptions C17_nic_name_roundtrip_repaired.
 
 (* the Python layer only reorders the rows (sort by family) and completes link-layer addresses shorter than 6 bytes *)
 Theorem C17_net_if_addrs_python : forall rows,
